@@ -407,6 +407,10 @@ class GraphBasedModelConstructor:
             if not intron_path: continue
             transcript_range = (path[0][1], path[-1][1])
             novel_exons = get_exons(transcript_range, list(intron_path))
+            if len(novel_exons) != len(intron_path) + 1:
+                # consecutive introns of the path overlap or touch (possible after intron substitution):
+                # get_exons drops the empty exon, which would merge two introns into one that no read contains
+                continue
             count = self.path_storage.paths[path]
             new_transcript_id = TranscriptNaming.transcript_prefix + str(self.get_transcript_id())
             # logger.debug("uuu %s: %s" % (new_transcript_id, str(novel_exons)))
